@@ -41,13 +41,23 @@ fn uint_out(w: u32, x: &str) -> String {
     }
 }
 
+/// a bit position or stride as the declaration spells it (optionally with a leading zero, which
+/// the parser reads as decimal all the same)
+fn num(f: &Field, x: u32) -> String {
+    if f.zero_pad {
+        format!("0{x}")
+    } else {
+        format!("{x}")
+    }
+}
+
 fn range_text(f: &Field) -> String {
     // single-bit entries of a list may be written `n` or `n..=n`
     let one = |&(lo, hi): &(u32, u32), in_list: bool| -> String {
         if lo == hi && in_list && !f.qualified {
-            format!("{lo}")
+            num(f, lo)
         } else {
-            format!("{lo}..={hi}")
+            format!("{}..={}", num(f, lo), num(f, hi))
         }
     };
     if f.ranges.len() == 1 {
@@ -65,9 +75,9 @@ pub fn setter_stem(f: &Field) -> &str {
 
 fn attr_text(f: &Field) -> String {
     // `stride = s` or the legacy `stride: s`
-    let stride_sep = if f.attr_order >= 12 { ":" } else { " =" };
+    let stride_sep = if f.attr_order % 24 >= 12 { ":" } else { " =" };
     let stride = match f.array {
-        Some(a) if a.explicit => Some(format!("stride{} {}", stride_sep, a.stride)),
+        Some(a) if a.explicit => Some(format!("stride{} {}", stride_sep, num(f, a.stride))),
         _ => None,
     };
     let single_bit = f.ranges.len() == 1 && f.ranges[0].0 == f.ranges[0].1;
@@ -76,15 +86,16 @@ fn attr_text(f: &Field) -> String {
     //   one bit:        bit(n)   or bits(n..=n)      (bool and 1-bit types alike)
     //   list of bits:   bits([a, b]) or bit([a, b])
     let (name, range) = if single_bit && ((f.kind == Kind::Bool) != f.qualified) {
-        ("bit", format!("{}", f.ranges[0].0))
+        ("bit", num(f, f.ranges[0].0))
     } else if f.ranges.len() > 1 && all_single && f.qualified {
-        let parts: Vec<String> = f.ranges.iter().map(|r| format!("{}", r.0)).collect();
+        let parts: Vec<String> = f.ranges.iter().map(|r| num(f, r.0)).collect();
         ("bit", format!("[{}]", parts.join(", ")))
     } else {
         ("bits", range_text(f))
     };
     let access = f.access.text().to_string();
-    // the parser takes the arguments in any order, with or without a trailing comma
+    // the parser takes the arguments in any order, with or without a trailing comma, and spread
+    // over several bit/bits attributes as long as only one of them carries the range
     let order: [usize; 3] = match f.attr_order % 6 {
         1 => [0, 2, 1],
         2 => [1, 0, 2],
@@ -96,7 +107,11 @@ fn attr_text(f: &Field) -> String {
     let parts = [Some(range), Some(access), stride];
     let args: Vec<String> = order.iter().filter_map(|&k| parts[k].clone()).collect();
     let trailing = if f.attr_order % 12 >= 6 { "," } else { "" };
-    format!("#[{}({}{})]", name, args.join(", "), trailing)
+    if f.attr_order >= 24 && args.len() >= 2 {
+        format!("#[{}({}{})]\n    #[{}({}{})]", name, args[0], trailing, name, args[1..].join(", "), trailing)
+    } else {
+        format!("#[{}({}{})]", name, args.join(", "), trailing)
+    }
 }
 
 /// index of the field whose enum / nested type this field uses (its own unless shared)
@@ -119,6 +134,7 @@ fn elem_type(f: &Field, j: usize) -> String {
         Kind::Native => format!("u{w}"),
         Kind::Signed => format!("i{w}"),
         Kind::EnumExh => format!("{}E{j}", if f.qualified { "self::" } else { "" }),
+        Kind::EnumOpt { .. } if f.claims_exhaustive => format!("E{j}"),
         Kind::EnumOpt { .. } => format!("Option<{}E{j}>", if f.qualified { "self::" } else { "" }),
         Kind::Nested => format!("{}N{j}", if f.qualified { "self::" } else { "" }),
         Kind::User => format!("{}U{j}", if f.qualified { "self::" } else { "" }),
@@ -137,6 +153,7 @@ fn setter_type(f: &Field, j: usize) -> String {
 fn getter_type(f: &Field, j: usize) -> String {
     let t = ty_index(f, j);
     match &f.kind {
+        Kind::EnumOpt { .. } if f.claims_exhaustive => format!("E{t}"),
         Kind::EnumOpt { .. } => format!("Result<E{t}, u{}>", storage_bits(f.width())),
         _ => elem_type(f, j),
     }
@@ -216,7 +233,11 @@ pub fn layout_module(l: &Layout) -> String {
             }
             Kind::EnumOpt { discs } => {
                 let d: Vec<u128> = discs.iter().map(|h| h.0).collect();
-                enum_decl(&mut o, j, w, &d, false, f.attr_order.wrapping_add(f.variant_rot as u8).wrapping_add(d.len() as u8));
+                if f.claims_exhaustive {
+                    enum_decl(&mut o, j, w, &d, true, 0);
+                } else {
+                    enum_decl(&mut o, j, w, &d, false, f.attr_order.wrapping_add(f.variant_rot as u8).wrapping_add(d.len() as u8));
+                }
             }
             Kind::Nested => {
                 // a small bitfield of its own: a flag at bit 0 and, where there is room, a view
@@ -309,6 +330,7 @@ pub fn layout_module(l: &Layout) -> String {
             Kind::Arb | Kind::Native => format!("({}, TAG_PLAIN)", uint_out(w, "x")),
             Kind::Signed => format!("(x as u{w} as u128, TAG_PLAIN)"),
             Kind::EnumExh => format!("(e{t}_out(x), TAG_PLAIN)"),
+            Kind::EnumOpt { .. } if f.claims_exhaustive => format!("(e{t}_out(x), TAG_PLAIN)"),
             Kind::EnumOpt { .. } => format!("match x {{ Ok(e) => (e{t}_out(e), TAG_OK), Err(r) => (r as u128, TAG_ERR) }}"),
             Kind::Nested | Kind::User => format!("({}, TAG_PLAIN)", uint_out(w, "x.raw_value()")),
         };
